@@ -35,6 +35,24 @@ AllDigits(t) == Len(t) > 0 /\ \A i \in 1..Len(t) : IsDigit(t[i])
 IsBlank(c) == c \in {9, 10, 11, 12, 13, 32, 28, 29, 30, 31, 133, 160}
 LenientChar(c) == IsDigit(c) \/ c = 43 \/ c = 95 \/ IsBlank(c) \/ c >= 128
 
+\* Spellings Python's int() reads although they are not plain decimal numerals: blanks AROUND the
+\* numeral, one leading '+', single underscores BETWEEN digits.  They have an evident value; the
+\* statement does not say whether they must be accepted, so the outcome may be an error or that value.
+LeadBlanks(s) == FoldLeft(LAMBDA acc, c : IF acc[2] /\ IsBlank(c) THEN <<acc[1] + 1, TRUE>> ELSE <<acc[1], FALSE>>, <<0, TRUE>>, s)[1]
+StripBlanks(s) == LET a == LeadBlanks(s)
+                      b == LeadBlanks(Reverse(s))
+                  IN IF a + b >= Len(s) THEN <<>> ELSE SubSeq(s, a + 1, Len(s) - b)
+UnderscoresOk(s) ==
+  /\ Len(s) >= 1 /\ IsDigit(s[1]) /\ IsDigit(s[Len(s)])
+  /\ \A i \in 1..Len(s) : IsDigit(s[i]) \/ s[i] = 95
+  /\ \A i \in 1..(Len(s) - 1) : ~(s[i] = 95 /\ s[i + 1] = 95)
+\* [ok, ds]: digits of a decorated numeral
+Evident(body) ==
+  LET s0 == StripBlanks(body)
+      s1 == IF Len(s0) >= 1 /\ s0[1] = 43 THEN Drop(s0, 1) ELSE s0
+  IN IF UnderscoresOk(s1) THEN [ok |-> TRUE, ds |-> LET d == SelectSeq(s1, IsDigit) IN [i \in 1..Len(d) |-> d[i] - 48]]
+     ELSE [ok |-> FALSE, ds |-> <<>>]
+
 DigitVals(t) == [i \in 1..Len(t) |-> t[i] - 48]
 StripZeros(ds) == LET z == CountLeading(ds, 0) IN Drop(ds, z)
 
@@ -70,10 +88,17 @@ Component(tok) ==
                        ELSE rej("range")
      ELSE IF body[1] = Minus /\ AllDigits(Drop(body, 1))
           THEN IF IsZero(DigitVals(Drop(body, 1)))
-               THEN [kind |-> "either", idx |-> <<>>, why |-> "minus-zero"]
+               THEN [kind |-> "either", idx |-> IF marked THEN Harden(Zeros(4)) ELSE Zeros(4), why |-> "minus-zero"]
                ELSE rej("negative")
-     ELSE IF \A i \in 1..Len(body) : LenientChar(body[i])
-          THEN [kind |-> "either", idx |-> <<>>, why |-> "lenient-numeral"]
+     ELSE IF Evident(body).ok
+          THEN LET ds == Evident(body).ds
+               IN IF marked
+                  THEN IF DecLeq(ds, Dec2147483647) THEN [kind |-> "either", idx |-> Harden(To4(ds)), why |-> "decorated-numeral"]
+                       ELSE rej("marked-range")
+                  ELSE IF DecLeq(ds, Dec4294967295) THEN [kind |-> "either", idx |-> To4(ds), why |-> "decorated-numeral"]
+                       ELSE rej("range")
+     ELSE IF (\A i \in 1..Len(body) : LenientChar(body[i])) /\ (\E i \in 1..Len(body) : body[i] >= 128)
+          THEN [kind |-> "either", idx |-> <<>>, why |-> "non-ascii-numeral"]     \* no evident value: not judged
      ELSE rej("junk")
 
 (***************************************************************************)
@@ -97,7 +122,11 @@ Parse(str) ==
                      ELSE 0
      IN IF firstBad # 0 THEN res("reject", <<>>, comps[firstBad].why)
         ELSE IF trail > 0 \/ \E i \in 1..Len(comps) : comps[i].kind = "either"
-             THEN res("either", <<>>, "lenient")
+             THEN \* the evident list (when every decorated component has one): the outcome may be an
+                  \* error or this list, nothing else
+                  IF \A i \in 1..Len(comps) : comps[i].idx # <<>>
+                  THEN res("either", [i \in 1..Len(comps) |-> comps[i].idx], "lenient-evident")
+                  ELSE res("either", <<>>, "lenient")
         ELSE res("ok", [i \in 1..Len(comps) |-> comps[i].idx], "ok")
 
 \* what the pinned code does with more than five components (named deviation):
